@@ -842,3 +842,18 @@ def catching_handler(repo, fi, node, exc_qualname):
         child = cur
         cur = getattr(cur, '_parent', None)
     return None
+
+
+def retag(ctx, rid, fn, *args, title=None):
+    """run another property's rule function as an obligation of this property under its own id (every rule it creates is
+    renamed rid, rid+'b', ...)"""
+    n0 = len(ctx.rules)
+    fn(ctx, *args)
+    for k, r in enumerate(ctx.rules[n0:]):
+        new = rid if k == 0 else '%s%s' % (rid, chr(ord('a') + k))
+        r.id = new
+        if title and k == 0:
+            r.title = title + ' [' + r.title + ']'
+        for i in r.instances:
+            i.rule = new
+    return ctx.rules[n0:]
